@@ -537,10 +537,8 @@ theorem k_skeleton_closed {s : HG} (h : WF s) (ha : AttrWF s) (order mo : Int)
 
 /-- `from_max_simplices(SC)`: the node set is kept (in order); the edges are exactly the simplices that no
     other simplex strictly contains, in the order of the complex, under the fresh IDs 0,1,2,…, without
-    attributes.  (`hsniff`: the first maximal simplex passes the format detection of `add_edges_from`,
-    which is the case whenever the labels are all strings or all non-strings, `sniffOK_uniform`.) -/
-theorem from_max_simplices_spec {s : HG} (h : WF s) (hne : ∀ e ∈ s.edges, s.mem e ≠ [])
-    (hsniff : ∀ e, (s.edges.filter (isMax s)).head? = some e → sniffOK (s.mem e)) :
+    attributes (any labels: the dict format of `add_edges_from` does no format sniffing). -/
+theorem from_max_simplices_spec {s : HG} (h : WF s) (hne : ∀ e ∈ s.edges, s.mem e ≠ []) :
     (fromMaxSimplices .sc s).2 = .ok ∧
     (fromMaxSimplices .sc s).1.nodes = s.nodes ∧
     (fromMaxSimplices .sc s).1.edges =
@@ -561,13 +559,6 @@ theorem from_max_simplices_spec {s : HG} (h : WF s) (hne : ∀ e ∈ s.edges, s.
     rw [a2.nodes]; simp only [List.map_id_fun, id_eq, HG.empty]; exact foldl_ins_nil_of_nodup h.nodupN
   have e1 : r1.1.edges = [] := by rw [a2.edges]; rfl
   have u1 : r1.1.uid = 0 := by rw [a2.uid]; rfl
-  rw [addEdgesFrom_f1 _ _ (by
-    intro it hit
-    cases hmx' : mx with
-    | nil => rw [hmx'] at hit; cases hit
-    | cons e rest =>
-      rw [hmx'] at hit; simp only [List.map_cons, List.head?_cons, Option.some.injEq] at hit
-      rw [← hit]; exact hsniff e (by rw [hmx']; rfl))]
   obtain ⟨c1, c2, c3, c4⟩ := bulk_auto .f1 (Or.inl rfl)
     (mx.map (fun e => ({ members := s.mem e, idx := none, attr := [] } : EdgeItem))) r1.1 i1.2 (by
       intro it hit; simp only [List.mem_map] at hit; obtain ⟨e, he, rfl⟩ := hit; exact wf_none_not_mem h (hmxs e he))
